@@ -69,9 +69,13 @@ class FakeRedis:
         self.server.exp.pop(k, None)
         return old
 
-    def exists(self, k):
-        self._cmd('EXISTS', k)
-        return int(_b(k) in self.server.d)
+    def exists(self, *ks):
+        # like the server: the NUMBER of the given keys that exist
+        n = 0
+        for k in ks:
+            self._cmd('EXISTS', k)
+            n += int(_b(k) in self.server.d)
+        return n
 
     def delete(self, *ks):
         n = 0
